@@ -49,6 +49,8 @@ def main(argv=None):
         seed = 0
     t0 = time.time()
     try:
+        if pid.upper() == "C15":
+            os.environ["CIWMC_REAL_RNG"] = "1"
         from . import env
         from . import harness, explore, evidence
         mod = importlib.import_module("ciwmc.props." + pid.lower())
